@@ -582,6 +582,30 @@ class FakeNumpy:
         return sz_min(ctx().atoms, a, b)
 
     @staticmethod
+    def maximum(a, b):
+        if isinstance(a, Arr) or isinstance(b, Arr):
+            return as_arr(a)._bin(as_arr(b), 'maximum')
+        if isinstance(a, (int, float)) and isinstance(b, (int, float)):
+            return max(a, b)
+        from .interp import UnknownTruth
+        try:
+            return a if bool(Size.of(a, ctx().atoms) >= Size.of(b, ctx().atoms)) else b
+        except UnknownTruth:
+            # max(k, 1) for a count k >= 0 that may be 0: the count itself when something is counted (the generic case the scenarios describe)
+            if isinstance(b, int) and b <= 1 and isinstance(a, Size):
+                return a
+            if isinstance(a, int) and a <= 1 and isinstance(b, Size):
+                return b
+            raise AnalysisError(f'np.maximum({a}, {b}) of two sizes whose order is unknown has no model')
+
+    @staticmethod
+    def count_nonzero(a, axis=None, **k):
+        a = as_arr(a)
+        if axis is not None or a.ndim != 1 or a.dt != 'bool':
+            raise AnalysisError('np.count_nonzero in this form has no model')
+        return A.mask_count(a, a.shape[0])          # (the same unknown, and the same data-dependent-selection event, as indexing with the mask)
+
+    @staticmethod
     def amin(x, **k):
         if isinstance(x, (list, tuple)):
             r = x[0]
